@@ -217,6 +217,27 @@ var misc = []string{
 	`/`, `a/b`, `<a>`, `"a"`, `'a'`, ` `, `a b`, "\t", "a\nb", `,`, `a,b`, `:`, `=`, `#`, `a#`, `#a`, `##`,
 }
 
+// documentedExamples are the inputs of parseTests in /repo/lex/regexp_test.go (the {#fold}/{#bytes}
+// markers removed: every pattern runs in all four modes anyway). They are the closest thing to a
+// syntax reference the repository has, so the reference parser must agree with lex on all of them.
+var documentedExamples = []string{
+	``, `a()`, `(a)`, `((())a())`, `a`, `ab`, `+`, `++`, `|+`, `a|+`, `.+`, `([.a-z])+`, `a.b`, `ab+`, `ab?`, `ab*`, `αβ+`, `{abc}`,
+	`{abc}{5}`, `{abc}{5,}`, `{abc}{5,8}`, `{abc}{123,543}`, `ab{1,3}`, `a(b)`, `a(b|c)`, `a(b|c)+`, `[]]`, `[^]]`,
+	`[\000-\010\012-\025]`, `[arz\n-]`, `[a-z]`, `[\000-\n\014-\125]`, `[-\n\014-\125]`, `[-a-zA-Z-]`, `0o7(_*7)*_+`, `[-[a-z]]`,
+	`[--[a-z]]`, `[A-Z-[D-F]]`, `[A-Z-[D]-[EF]]`, `[\p{Lu}\xc0-\U0010ffff]`, `[\p{Lu}-[\u0100-\U0010ffff]]`,
+	`[\p{L}-\p{Lu}-[\u0100-\U0010ffff]]`, `[\p{L}-[\u0100-\U0010ffff]-\p{Lu}]`, `[\p{Any}]`, `[\p{Any}-[\x00\x01\x02]]`,
+	`[\p{Any}-[\x00\x01\x02]-[\x80-\U0010ffff]-\p{Lu}]`, `[\p{Any}-\p{L}-[\u0100-\U0010ffff]]`, `(?i)abC`, `(?i)[a-en-q]`,
+	`(?i)\u0041`, `(?i)\101b`, `(?i)[^b-e]`, `(?i)+[^]]`, `abc((?i)ab)`, `abc(?i:ab)`, `abc(((?i:ab)))`, `abc(((?:ab)))`, `abc(?i)`,
+	`a(?i:a)a`, `(?i)a(?-i:a)a`, `(?i)a(?i-:a(?i)b)a`, `(?i)a(?i-)a(?i)ba`, `a(?i-)a(?i)ba`, `\(\)`, `\a+\f\n\r\t\v`, `\123\000`,
+	`\x00\x01`, `\_`, `\Q+?-\Eabc`, `\Q+abc+`, `+\Q+*+\E+`, `\d\D`, `\w`, `[^\W]`, `[\W]`, `[\s]`, `[^\s]`, `\S`, `[\S]`, `+\+`,
+	`\p{Any}+\pZ`, `\P{Any}+`, `\p{^Any}+`, `\pZ`, `\u1234`, `\u{1234}a`, `\u{123}`, `\u{aBcD}`, `\U00001234`, `\U00012345`,
+	"\u0370", "\u0370\u0371+", `(?i)γ`, "\xfe\xfe", "\\Q\xfe\xfe\\E", "\\Q\u0370\xfe\xfe\\E", `(`, `(a`, `)`, `a\`, `\T`, `(a))`,
+	`\p{`, `\p{}`, `\p{Lu}`, `\p{z}`, `{1,3}`, `{abc}{543,123}`, `{abc}{,123}`, `{abc}{99999999999999999999}`,
+	`{abc}{1,99999999999999999999}`, `{abc}{1,`, `ab{`, `{`, `[a-z`, `[\p{L}-z`, `[qa-\p{L}]`, `[z-a]`, `\00`, `\00a`, `\400`,
+	`\u123`, `\u{ }`, `\U0010ffff`, `\U00110000`, `\u0abc`, `[\u0abc]`, `\u00ff`, `\u0100`, `[\u0100]`, `abc(?`, `abc(?ie`,
+	`\u00a0`, `[\u03b1-\u03b3]`, `[α-\u03b3]`, `[0-\u03b3]`, `[α-γ]`, `[0-γ]`,
+}
+
 // skeletons assembles part a2, removing duplicates and everything already in part a1.
 func skeletons(quick bool, inA1 func(string) bool) []string {
 	var out []string
@@ -229,6 +250,9 @@ func skeletons(quick bool, inA1 func(string) bool) []string {
 		out = append(out, s)
 	}
 	light, bulk, heavy := escapeAtoms(quick)
+	for _, s := range documentedExamples {
+		add(s)
+	}
 	for _, s := range misc {
 		add(s)
 	}
